@@ -94,16 +94,16 @@ BIT = [  # key, define, opcode, body text, mutated body, what
 for key, dfn, op, body, mbody, meth, doc in BIT:
     signed = "unsigned" if key == "shru" else "signed"
     chk = ["bounds-check", "pointer-check"] + ([] if key == "shl" else ["signed-overflow-check"])
-    U(id="vm.op." + key, entry="h_vo_bitop", defines=["-D" + dfn], checks=chk, assumes=[A_GENERIC] + ([A_SHL] if key == "shl" else []),
+    U(id="vm.op." + key, entry="h_vo_bitop", defines=["-D" + dfn], checks=chk, cbmc=FP, assumes=[A_GENERIC] + ([A_SHL] if key == "shl" else []),
       clause=("%s: for two numbers x, y where x is a 32-bit %s integer and y a 32-bit signed integer the destination receives exactly the number %s; two numbers of which one is not such an integer raise" % (op, signed, doc)) + GEN2 % (":" + meth, ":r" + meth),
       mutants=[M("wrong-operator", "VM_OP(%s)\n    %s" % (op, body), "VM_OP(%s)\n    %s" % (op, mbody), "32-bit integer result|signedness"), RANGE_DROP if key != "bxor" else RHS_DROP])
     if key.startswith("sh"):
         ib = body.replace("vm_bitopu(", "vm_bitopu_immediate(").replace("vm_bitop(", "vm_bitop_immediate(")
         im = mbody.replace("vm_bitopu(", "vm_bitopu_immediate(").replace("vm_bitop(", "vm_bitop_immediate(")
-        U(id="vm.op." + key + ".imm", entry="h_vo_bitop_imm", defines=["-D" + dfn], checks=chk, assumes=[A_GENERIC] + ([A_SHL] if key == "shl" else []),
+        U(id="vm.op." + key + ".imm", entry="h_vo_bitop_imm", defines=["-D" + dfn], checks=chk, cbmc=FP, assumes=[A_GENERIC] + ([A_SHL] if key == "shl" else []),
           clause=("%s_IMMEDIATE: for a number x that is a 32-bit %s integer and the signed-byte immediate y the destination receives exactly the number %s; a number that is not such an integer raises" % (op, signed, doc)) + GENI % (":" + meth),
           mutants=[M("wrong-operator", "VM_OP(%s_IMMEDIATE)\n    %s" % (op, ib), "VM_OP(%s_IMMEDIATE)\n    %s" % (op, im), "32-bit integer result|signedness")])
-U(id="vm.op.bnot", entry="h_vo_bnot", defines=["-DVO_BNOT"], assumes=[A_GENERIC],
+U(id="vm.op.bnot", entry="h_vo_bnot", defines=["-DVO_BNOT"], cbmc=FP, assumes=[A_GENERIC],
   clause="JOP_BNOT: for a number x that is a 32-bit signed integer the destination receives exactly the number ~x; a non-number goes to generic method dispatch exactly once with the method name :~ and its result goes to the destination; no other slot changes; execution continues at the next instruction",
   mutants=[M("negate-instead-of-invert", "janet_wrap_integer(~janet_unwrap_integer(op))", "janet_wrap_integer(-janet_unwrap_integer(op))", "bit-wise inverse"),
            M("wrong-method", 'janet_unary_call("~", op)', 'janet_unary_call("-", op)', "method name")])
